@@ -152,7 +152,10 @@ class _UnconditionalPlanar(AbstractBijection):
         See appendix A1 in https://arxiv.org/pdf/1505.05770.pdf.
         """
         wtu = self._act_scale @ self.weight
-        m_wtu = -1 + jnp.log(1 + nn.softplus(wtu))
+        # Invertibility needs 1 + slope * w^T u > 0 for every slope of the activation,
+        # i.e. w^T u > -1 / (maximum slope), where leaky relu slopes can exceed 1.
+        max_slope = 1 if self.negative_slope is None else max(1, self.negative_slope)
+        m_wtu = -1 / max_slope + jnp.log(1 + nn.softplus(wtu))
         # If weight is exactly zero no adjustment is needed (avoid 0/0)
         norm_sq = jnp.sum(self.weight**2)
         norm_sq = jnp.where(norm_sq == 0, 1, norm_sq)
